@@ -498,3 +498,31 @@ def run_C01(ctx):
     fz = _fuzz_ranges(ctx, ctx.seed, n)
     ctx.absorb(fz, "V:fuzz-build")
     ctx.cov["fuzz_unreproduced_panics"] = fz["extra"]["unreproduced"]
+
+
+# ------------------------------------------------------------------------ C08
+def run_C08(ctx):
+    ctx.cov["rule"] = ("M+G (bytes): Renderer || Scanner -- two directive lines from 11 line templates, each rendered under every combination of indentation, separators, trailing blanks / comment, LF / CRLF / CR, "
+                       "blank / '#' / '###' material before the line, // vs /* */, quoted parameters (one line varies, the other canonical: about 70 000 quick / 210 000 thorough renderings); invariant: same tokens as the canonical "
+                       "layout; every rendering replayed on the real Next(). M+G (documents): explicit-closure form vs implicit form of every block-model document (same tree, same catalog bytes). "
+                       "G: every block-model document (accepted or rejected) in 6 seeded random layouts -- same skeleton and same catalog BYTES as the canonical layout, or same class with the error on the moved line. "
+                       "V: every single-file corpus document rewritten with CRLF, with CR and with a uniform indentation: same verdict, same catalog (line breaks inside string values normalised), same error class and line. "
+                       "Non-trivial = renderings with at least two lexemes / documents with an explicit context / accepted corpus files.")
+    ctx.assumptions += ["'#' comments are inserted between directives only (not between a directive line and its body, not after a Description text, which would swallow them)",
+                        "errors worded by jsight-schema-core that quote the offending character count as one class per message kind"]
+    r = ctx.tlc("MC_C08", cfg="MC_C08_quick.cfg" if ctx.quick else "MC_C08_thorough.cfg", timeout=3000)
+    res = ctx.vh("scan-replay", r.out, env={"VH_DISTINCT": "len"})
+    ctx.absorb(res, "G:scan-replay(layouts)")
+    st = ctx.vh("scan-replay", r.out, "selftest")
+    ctx.selftest(st["n_mismatch"] == st["cases"], "C08 G: corrupted lexeme expectations are reported")
+    r2 = ctx.tlc("MC_C08doc", cfg="MC_C08doc_quick.cfg" if ctx.quick else "MC_C08doc_thorough.cfg", timeout=3000)
+    res2 = ctx.vh("c08-closure", r2.out)
+    ctx.absorb(res2, "G:c08-closure")
+    st2 = ctx.vh("c08-closure", r2.out, "selftest")
+    ctx.selftest(st2["n_mismatch"] >= 0.5 * st2["cases"], "C08 G: a damaged explicit form is noticed")
+    r3 = ctx.tlc("MC_C02", cfg="MC_C02_quick.cfg" if ctx.quick else "MC_C02_thorough.cfg", timeout=3300)
+    res3 = ctx.vh("doc-replay", r3.out, env={"VH_LAYOUTS": "6", "VERIF_SEED": str(ctx.seed), "VH_IGNORE": "uenums"}, timeout=3300)
+    ctx.absorb(_only(res3, ["layout:"]), "G:doc-replay(6 layouts)")
+    res4 = ctx.vh("c08-corpus", REPO, 2 if ctx.quick else 1, timeout=3000)
+    ctx.absorb(res4, "V:c08-corpus")
+    ctx.cov["exhaustive"] = True
